@@ -3,6 +3,7 @@ package main
 import (
 	"fmt"
 	"go/ast"
+	"go/constant"
 	"go/token"
 	"os"
 	"go/types"
@@ -23,7 +24,9 @@ func placeholderValue(v ssa.Value) bool {
 			return true
 		}
 		if b, ok := v.Type().Underlying().(*types.Basic); ok && b.Info()&types.IsString != 0 {
-			return v.Value.ExactString() == `""`
+			// the empty string, or a marker such as TypeIdent("<invalid>")
+			s := constant.StringVal(v.Value)
+			return s == "" || strings.HasPrefix(s, "<") && strings.HasSuffix(s, ">")
 		}
 		return false
 	case *ssa.MakeInterface:
